@@ -84,6 +84,8 @@ class BaseDevice:
         return cmd.startswith(b"G4 P0") or b"M110" in cmd
 
     # ------------------------------------------------------------------
+    ack_blank = False
+
     def process(self, raw: bytes):
         """Handle one received line (without the newline)."""
         self.idle_since = None
@@ -96,7 +98,8 @@ class BaseDevice:
             self.numbered_tx += 1
         self.rx_lines.append(line)
         self.log("rx", line)
-        if not line.strip():
+        if not line.strip() and not self.ack_blank:
+            # Marlin-like firmware: an empty line is not acknowledged
             self.idle_since = time.monotonic()
             return
         m = NUMBERED.match(line)
@@ -277,6 +280,8 @@ class MarlinPTY(BaseDevice):
 
 
 class GrblTCP(BaseDevice):
+    ack_blank = True        # Grbl answers 'ok' to every line, empty ones included
+
     def __init__(self, behaviour=None, greeting=b"Grbl 1.1h ['$' for help]"):
         super().__init__(behaviour)
         self.srv = socket.socket(socket.AF_INET, socket.SOCK_STREAM)
